@@ -283,6 +283,31 @@ func c08gen(cw *caseWriter, tier string, r *rng) {
 
 func c08genN(cw *caseWriter, cnt int, r *rng) {
 	tabs := closedCfgTab()
+	// directed: a restarted server whose whole log is known committed when it becomes leader (commit index = last index = the
+	// index before its no-op; commit-tracking store with RestoreCommittedLogs; since the repair of F13 its latest configuration
+	// is marked committed at start-up, so the first half of the gate is open): the membership-change gate must stay closed
+	// until the no-op itself is committed - asked right after the no-op is dispatched, after a match below it, after the commit
+	for nold := 0; nold < 4; nold++ {
+		for variant := 0; variant < 3; variant++ {
+			g := &lsGen{}
+			g.self, g.trailing, g.maxapp, g.cfgtab, g.term = 1, 100, 2, tabs, 3
+			g.entries = [][4]uint64{{1, 1, 5, 9000}}
+			for i := 0; i < nold; i++ {
+				g.entries = append(g.entries, [4]uint64{uint64(2 + i), 2, 0, uint64(200 + i)})
+			}
+			g.track, g.rc = 1, 1
+			g.pcommit = uint64(1 + nold)
+			last := uint64(1+nold) + 1
+			g.ops = append(g.ops, opDispatch([][3]uint64{{1, 0, 1}}, nil), opGate(), opConfig(0, 4, 4, 0, 2, nil))
+			switch variant {
+			case 1:
+				g.ops = [][]uint64{opDispatch([][3]uint64{{1, 0, 1}}, nil), opMatch(2, last-1), opCommit(), opGate(), opConfig(0, 4, 4, 0, 2, nil)}
+			case 2:
+				g.ops = [][]uint64{opDispatch([][3]uint64{{1, 0, 1}}, nil), opGate(), opMatch(2, last), opCommit(), opGate(), opConfig(0, 4, 4, 0, 2, nil), opGate()}
+			}
+			lsRun(cw, cw.tag("Ld"), g.encode(), false)
+		}
+	}
 	for k := 0; k < cnt; k++ {
 		g := &lsGen{}
 		g.self, g.trailing, g.maxapp = 1, []uint64{0, 2, 100}[r.intn(3)], uint64(1+r.intn(4))
